@@ -4,10 +4,12 @@ import (
 	"time"
 
 	"github.com/vx-labs/mqtt-protocol/packet"
+	"github.com/vx-labs/wasp/v4/wasp/sessions"
 	rt "github.com/vx-labs/wasp/v4/zzsymxrt"
 )
 
 type symxFlight struct {
+	sess  int
 	qos   int32
 	id    int32
 	phase int // 0: PUBLISH unacknowledged, 1: PUBREL unacknowledged (QoS 2), 2: done
@@ -51,29 +53,43 @@ func symxSweepNow(b *symxBroker) {
 func symxC03() {
 	n := rt.Param("messages", 1)
 	steps := rt.Param("steps", 2)
+	nsess := rt.Param("sessions", 1)
 	b := symxNewBroker(1, 1)
 	p := b.start(nil)
-	s, c := b.session("s", "c", "m", 30)
+	names := []string{"s", "t"}
+	var ss [2]*sessions.Session
+	var cs [2]*symxConn
+	for k := 0; k < nsess; k++ {
+		ss[k], cs[k] = b.session(names[k], "c"+names[k], "m", 30)
+	}
 	fl := make([]symxFlight, n)
 	for k := range fl {
+		fl[k].sess = k % nsess
 		fl[k].qos = int32(rt.Int("qos", 1, 2))
 		symxTick()
-		b.writer.Send(b.ctx, []string{"s"}, []int32{fl[k].qos}, &packet.Publish{Header: &packet.Header{}, Topic: []byte("m/t"), Payload: []byte{byte('a' + k)}})
+		b.writer.Send(b.ctx, []string{names[fl[k].sess]}, []int32{fl[k].qos}, &packet.Publish{Header: &packet.Header{}, Topic: []byte("m/t"), Payload: []byte{byte('a' + k)}})
 		rt.Quiesce()
 		symxPoolRetryWait(2) // the writer waits 100 ms when the pool hands out identifier 0
-		pubs := symxPublishes(c.written())
-		rt.Assert(len(pubs) == k+1, "C03.first_copy_written")
-		fl[k].id = pubs[k].MessageId
+		var mine *packet.Publish
+		for _, pk := range symxPublishes(cs[fl[k].sess].written()) {
+			if len(pk.Payload) == 1 && pk.Payload[0] == byte('a'+k) {
+				mine = pk
+			}
+		}
+		rt.Assert(mine != nil, "C03.first_copy_written")
+		fl[k].id = mine.MessageId
 		rt.Assert(fl[k].id >= 1 && fl[k].id <= 65535, "C03.identifier_in_range")
 		for j := 0; j < k; j++ {
 			rt.Assert(fl[j].id != fl[k].id, "C03.identifiers_in_flight_are_distinct")
 		}
 		fl[k].pubs = 1
 	}
-	registered := true
+	registeredS := [2]bool{true, true}
 	for step := 0; step < steps; step++ {
 		m := int(rt.Int("target", 0, int64(n-1)))
 		action := rt.Int("action", 0, 4)
+		s, c := ss[fl[m].sess], cs[fl[m].sess]
+		registered := registeredS[fl[m].sess]
 		symxTick()
 		switch action {
 		case 0: // the acknowledgement the broker is waiting for
@@ -106,7 +122,7 @@ func symxC03() {
 		case 3: // silence across the deadline: the sweep re-sends every unacknowledged packet once
 			symxSweepNow(b)
 			for k := range fl {
-				if !registered {
+				if !registeredS[fl[k].sess] {
 					if fl[k].phase != 2 {
 						fl[k].phase = 2 // released by the sweep
 					}
@@ -120,26 +136,26 @@ func symxC03() {
 				}
 			}
 		case 4: // the session ends
-			b.local.Delete("s")
-			registered = false
+			b.local.Delete(names[fl[m].sess])
+			registeredS[fl[m].sess] = false
 		}
 		rt.Quiesce()
 		for k := range fl {
-			pubs, rels := symxCountOut(c, fl[k].id)
+			pubs, rels := symxCountOut(cs[fl[k].sess], fl[k].id)
 			rt.Assert(pubs == fl[k].pubs, "C03.publish_resent_exactly_once_per_expired_deadline_with_same_id")
 			rt.Assert(rels == fl[k].rels, "C03.pubrel_resent_exactly_once_per_expired_deadline_with_same_id")
 		}
 	}
 	// completed or abandoned deliveries have released their identifier; pending ones still hold it
-	if !registered {
+	if !registeredS[0] || !registeredS[1] {
 		symxSweepNow(b)
 	}
 	pool := b.writer.midPool.(*simpleMidPool)
 	for k := range fl {
-		done := fl[k].phase == 2 || !registered
+		done := fl[k].phase == 2 || !registeredS[fl[k].sess]
 		rt.Assert(symxFree(pool.intervals, fl[k].id) == done, "C03.identifier_free_iff_delivery_complete")
 	}
-	rt.Cover(fl[0].phase == 2 && registered, "C03.completed_while_connected")
+	rt.Cover(fl[0].phase == 2 && registeredS[0], "C03.completed_while_connected")
 	rt.Cover(fl[0].pubs >= 2, "C03.publish_retransmitted")
 	if steps >= 3 {
 		rt.Cover(fl[0].rels >= 2, "C03.pubrel_retransmitted")
